@@ -80,6 +80,11 @@ pub impl Vec<SpeedLimitPoint> {
                 idx_end -= 1;
             }
 
+            // Speed in force at offset end, and whether offset end needs its own point,
+            // both determined before any insertion below
+            let speed_old_end = self[idx_end].speed_limit;
+            let end_needs_point = self[idx_end].offset < speed_limit.offset_end;
+
             // If the speed starts at an offset not already in speeds
             if speed_limit.offset_start < self[idx_start].offset {
                 let speed_old = self[idx_start - 1].speed_limit;
@@ -100,8 +105,10 @@ pub impl Vec<SpeedLimitPoint> {
             }
 
             // If the old speed does not end at offset end
-            if self[idx_end].offset < speed_limit.offset_end {
-                let speed_old = self[idx_end].speed_limit;
+            if end_needs_point {
+                // not `self[idx_end]`: when the new limit lies strictly between two existing
+                // points, `idx_end` now refers to the start point that was just inserted
+                let speed_old = speed_old_end;
 
                 // If the speed is different, insert the old speed at offset end
                 if speed_old != min_speed(speed_old, speed_limit.speed) {
